@@ -194,7 +194,7 @@ def check_typestate(rep, facts, helpers, fn, paths):
         state = 'settled'
         polled = False
         pend = None
-        for kind, idx, node, args, fname in D.protocol_events(p, helpers):
+        for kind, idx, node, args, fname, raw in D.protocol_events(p, helpers):
             if kind in ('ERASE', 'SETADDR', 'DATA', 'CLR'):
                 n_req += 1
                 if state == 'pending':
@@ -257,7 +257,7 @@ def check_addresses(rep, facts, helpers, fn, paths):
     for p in paths:
         ps = p.env.get('page_size', ('name', 'page_size'))
         want = Poly.const(base) + Poly.sym(('sym', 'PAGE')) * to_poly(ps, rename)
-        for kind, idx, node, args, fname in D.protocol_events(p, helpers):
+        for kind, idx, node, args, fname, raw in D.protocol_events(p, helpers):
             if kind in ('ERASE', 'SETADDR') and len(args) >= 2:
                 got = to_poly(args[1], rename)
                 key = (kind, repr(got), repr(want))
@@ -406,7 +406,7 @@ def check_guard_and_table(rep, facts, helpers, fn, paths):
         want = Poly({(('LEN',),): 1}) - to_poly(ps, rename) * to_poly(pc, rename)
         first_req = min(e[1] for e in evs if e[0] in ('ERASE', 'DATA', 'SETADDR', 'CLR'))
         guarded = False
-        for kind, idx, node, args, fname in evs:
+        for kind, idx, node, args, fname, raw in evs:
             if kind == 'COND' and idx < first_req:
                 g = guard_poly(args[0])
                 if g is not None and g == want and args[1] is False:
